@@ -134,7 +134,7 @@ class Check:
 
     # ---- verdicts --------------------------------------------------------------------------
     def discharge(self, timeout_ms=None, parallel=True):
-        pending = [o for o in self.obligs if o.status is None]
+        pending = [o for o in self.obligs if o.status is None and not isinstance(o, _Stub)]
         smt.discharge(pending, timeout_ms or self.solver_timeout_ms, parallel=parallel)
         if os.environ.get("SYMX_VERBOSE"):
             for ob in pending:
@@ -211,7 +211,7 @@ class Check:
                 self.known_hit.add(key)
                 print("KNOWN-FINDING: property=%s %s" % (self.pid, ent.get("what", key)))
                 continue
-            path = os.path.join(EVID, "replay", "%s_%d.json" % (self.pid, len(self.violations)))
+            path = os.path.join(EVID, "replay", "%s_%s%d.json" % (self.pid, getattr(self, "_tag", ""), len(self.violations)))
             with open(path, "w") as fh:
                 json.dump({"property": self.pid, "harness": f.harness, "inputs": f.inputs, "label": f.label,
                            "key": key, "observed": res.get("observed"), "what": res.get("what")}, fh, indent=1, default=str)
@@ -292,3 +292,124 @@ def run_replay(pid, replays, path):
         print("VIOLATION property=%s replay=%s" % (pid, path))
         return EXIT_VIOLATION
     return EXIT_OK
+
+
+# ---- running independent harnesses in parallel child processes ---------------------------------------------------
+def _child_summary(ck):
+    obs = []
+    for o in ck.obligs:
+        obs.append({"label": o.label, "status": o.status, "secs": o.secs, "solver": o.solver, "canary": o.canary, "witness": o.witness,
+                    "trivial": bool(o.meta.get("trivial"))})
+    return {"obligs": obs, "inconclusive": ck.inconclusive, "violations": ck.violations, "known_hit": sorted(ck.known_hit), "samples": ck.samples,
+            "functions": ck.functions, "bounds": ck.bounds, "assumptions": ck.assumptions, "stubs": ck.stubs, "outside": ck.outside, "rungs": ck.rungs,
+            "notes": ck.harness_notes, "paths": ck.paths, "infeasible": ck.infeasible_paths, "atoms": ck.atoms, "aligned": ck.aligned,
+            "facade_checks": ck.facade_checks, "stats": smt.STATS, "printed": getattr(ck, "_printed", [])}
+
+
+class _Stub:
+    """obligation record re-created in the parent from a child's summary"""
+    def __init__(self, d):
+        self.label, self.status, self.secs, self.solver = d["label"], d["status"], d["secs"], d["solver"]
+        self.canary, self.witness = d["canary"], d["witness"]
+        self.meta = {"trivial": d["trivial"]}
+        self.model = None
+
+
+def run_parallel(ck, tasks, jobs=None):
+    """tasks: list of (name, fn(child_check)).  Each runs in a forked child with its own Check; verdicts are merged."""
+    import multiprocessing as mp
+    jobs = jobs or int(os.environ.get("SYMX_JOBS", min(16, os.cpu_count() or 4)))
+    if os.environ.get("SYMX_SERIAL") or len(tasks) <= 1:
+        for name, fn in tasks:
+            fn(ck)
+        return
+    ctxm = mp.get_context("fork")
+    pending = list(enumerate(tasks))
+    running = {}
+    results = {}
+
+    def child(idx, name, fn, conn):
+        try:
+            smt._POOL = None
+            for k in ("queries", "unsat", "sat", "unknown", "errors"):
+                smt.STATS[k] = 0
+            smt.STATS["solver_s"] = 0.0
+            smt.STATS["by_solver"] = {}
+            c = Check(ck.pid, ck.tier, ck.seed, ck.replays)
+            c.solver_timeout_ms = ck.solver_timeout_ms
+            c._tag = "t%d" % idx
+            try:
+                fn(c)
+                os.environ["SYMX_JOBS"] = str(max(2, min(6, 32 // max(1, len(tasks)))))
+                c.discharge(parallel=True)
+                smt.shutdown()
+                c.replay_all()
+            except BaseException as e:
+                c.inconc("harness %s crashed: %r %s" % (name, e, traceback.format_exc()[-800:]))
+            conn.send(_child_summary(c))
+        except BaseException as e:
+            try:
+                conn.send({"crash": repr(e)})
+            except Exception:
+                pass
+        finally:
+            conn.close()
+            os._exit(0)
+
+    while pending or running:
+        while pending and len(running) < jobs:
+            idx, (name, fn) = pending.pop(0)
+            pc, cc = ctxm.Pipe(duplex=False)
+            pr = ctxm.Process(target=child, args=(idx, name, fn, cc))
+            pr.start()
+            cc.close()
+            running[idx] = (pr, pc, name)
+        done = []
+        for idx, (pr, pc, name) in running.items():
+            if pc.poll(0.05):
+                try:
+                    results[idx] = pc.recv()
+                except EOFError:
+                    results[idx] = {"crash": "no result from child %s" % name}
+                done.append(idx)
+            elif not pr.is_alive():
+                results[idx] = {"crash": "child %s died" % name}
+                done.append(idx)
+        for idx in done:
+            pr, pc, name = running.pop(idx)
+            pr.join(5)
+    for idx in sorted(results):
+        r = results[idx]
+        name = tasks[idx][0]
+        if "crash" in r:
+            ck.inconc("harness %s: %s" % (name, r["crash"]))
+            continue
+        ck.obligs.extend(_Stub(d) for d in r["obligs"])
+        ck.inconclusive.extend(r["inconclusive"])
+        for v in r["violations"]:
+            ck.violations.append(tuple(v))
+        ck.known_hit.update(r["known_hit"])
+        for s_ in r["samples"]:
+            ck.sample(s_)
+        ck.functions.update(r["functions"])
+        ck.bounds.update(r["bounds"])
+        for lst, key in ((ck.assumptions, "assumptions"), (ck.stubs, "stubs"), (ck.outside, "outside"), (ck.rungs, "rungs")):
+            for t in r[key]:
+                if t not in lst:
+                    lst.append(t)
+        ck.harness_notes.extend(r["notes"][:5])
+        ck.paths += r["paths"]
+        ck.infeasible_paths += r["infeasible"]
+        ck.atoms += r["atoms"]
+        ck.aligned += r["aligned"]
+        ck.facade_checks += r["facade_checks"]
+        st = r["stats"]
+        for k in ("queries", "unsat", "sat", "unknown", "errors"):
+            smt.STATS[k] = smt.STATS.get(k, 0) + st.get(k, 0)
+        smt.STATS["solver_s"] += st.get("solver_s", 0.0)
+        for sv, d in st.get("by_solver", {}).items():
+            e = smt.STATS["by_solver"].setdefault(sv, {"n": 0, "s": 0.0})
+            e["n"] += d["n"]
+            e["s"] += d["s"]
+        for line in r.get("printed", []):
+            print(line)
